@@ -1,5 +1,6 @@
 import Ovldverif.Model.Json
 import Ovldverif.Model.JsonD
+import Ovldverif.Spec.Types
 /-! Line-protocol driver: one JSON scenario per input line, one JSON result per output line. -/
 open Lean Ovld
 
@@ -8,7 +9,14 @@ def runA (j : Json) : Except String Json := do
   let ts ← (← jArr (← jField j "types")).toList.mapM tyOfJson
   let ord := ts.map (fun a => String.join (ts.map (fun b => (typeorder H a b).code)))
   let sub := ts.map (fun a => String.join (ts.map (fun b => if subclasscheck H a b then "1" else "0")))
-  return Json.mkObj [("ord", toJson ord), ("sub", toJson sub)]
+  let n ← jNat (jFieldD j "n" (Json.num 0))
+  let plain := String.join (ts.map (fun t => if t.plain then "1" else "0"))
+  let down := String.join (ts.map (fun t => if t.downClosed then "1" else "0"))
+  let memM := (List.range n).map (fun c => String.join (ts.map (fun t => if t.plain then (if mem H c t then "1" else "0") else "-")))
+  let eff := ts.map (fun a => String.join (ts.map (fun b => if a.effHook b then "1" else "0")))
+  return Json.mkObj [("ord", toJson ord), ("sub", toJson sub), ("plain", toJson plain), ("down", toJson down),
+    ("mem", toJson memM), ("eff", toJson eff),
+    ("frag", toJson (ts.map (fun a => String.join (ts.map (fun b => if symFrag a b then "1" else "0")))))]
 
 def dedupS (xs : List String) : List String :=
   (xs.foldl (fun acc x => if acc.contains x then acc else x :: acc) []).mergeSort (fun a b => a ≤ b)
